@@ -154,6 +154,14 @@ def frs(acc, x, fn=None, salt=0, delays=(), fail=None):
     return _run(FRS, fn, salt, delays, fail, (acc, x))
 
 
+def task_fn(table, fn, salt, delays, fail):
+    """The catalogue function as a closure without keyword arguments.  Every closure has the same __name__ ('task'): what
+    distinguishes two tasks is the function object (and its arguments), never its name."""
+    def task(*args):
+        return _run(table, fn, salt, delays, fail, args)
+    return task
+
+
 def uncanon(j):
     return tuple(uncanon(e) for e in j["t"]) if isinstance(j, dict) else j
 
@@ -207,40 +215,66 @@ def build(case, dask):
         up = up.scatter()
         watch(up, "scatter")
     delays = tuple(case["delays"]) if dask else ()
-    for i, k in enumerate(case["seg"]):
-        kw = dict(fn=k.get("f"), salt=case["salt"] + 7 * i, delays=delays)
-        if k.get("fail"):
-            kw["fail"] = (k["fail"]["mod"], k["fail"]["rem"])
-        kind = k["k"]
-        if kind == "map":
-            up = up.map(f1, **kw)
-        elif kind == "starmap":
-            up = up.starmap(fs, **kw)
-        elif kind in ("accumulate", "accumulate_rs"):
-            start = no_default if k.get("start") is None else uncanon(k["start"])
-            up = up.accumulate(f2 if kind == "accumulate" else frs, start=start,
-                               returns_state=(kind == "accumulate_rs"), **kw)
-        elif kind == "zip_map":
-            side = up.map(f1, **kw)
-            up = up.zip(side)
-        elif kind == "union_map":
-            side = up.map(f1, **kw)
-            up = up.union(side)
-        elif kind == "buffer":
-            up = up.buffer(k["n"])
-            p.buffers.append(up)
-        elif kind == "partition":
-            up = up.partition(k["n"])
-        elif kind == "sliding_window":
-            up = up.sliding_window(k["n"], return_partial=k.get("partial", True))
-        else:
-            raise common.HarnessError("unknown kind %r" % (kind,))
-        if dask and type(up).__module__ != "streamz.dask":
-            raise common.HarnessError("%s on a DaskStream built %r" % (kind, type(up)))
-    if dask:
-        up = up.gather()
-        watch(up, "gather")
-    p.rec = Rec(up)
+    closure = case.get("style") == "closure"
+
+    def attach(up=up):
+        """everything below the source (locally) / below scatter (Dask): the segment, gather, the recording consumer"""
+        for i, k in enumerate(case["seg"]):
+            kw = dict(fn=k.get("f"), salt=case["salt"] + 7 * i, delays=delays)
+            if k.get("fail"):
+                kw["fail"] = (k["fail"]["mod"], k["fail"]["rem"])
+
+            def fun(table, plain, name=None, dsalt=0):
+                """(function, kwargs) in the case's style: module-level function + keyword arguments, or a closure"""
+                if closure:
+                    return task_fn(table, name or kw["fn"], kw["salt"] + dsalt, delays, kw.get("fail")), {}
+                return plain, dict(kw, fn=name or kw["fn"], salt=kw["salt"] + dsalt)
+            kind = k["k"]
+            if kind == "map":
+                f, a = fun(F1, f1)
+                up = up.map(f, **a)
+            elif kind == "starmap":
+                f, a = fun(FS, fs)
+                up = up.starmap(f, **a)
+            elif kind in ("accumulate", "accumulate_rs"):
+                start = no_default if k.get("start") is None else uncanon(k["start"])
+                f, a = fun(F2 if kind == "accumulate" else FRS, f2 if kind == "accumulate" else frs)
+                up = up.accumulate(f, start=start, returns_state=(kind == "accumulate_rs"), **a)
+            elif kind == "zip_map":
+                f, a = fun(F1, f1)
+                side = up.map(f, **a)
+                up = up.zip(side)
+            elif kind == "union_map":
+                f, a = fun(F1, f1)
+                side = up.map(f, **a)
+                up = up.union(side)
+            elif kind == "zip_map2":
+                # fan-out inside the segment: two map nodes over the same elements (same-named functions in closure style)
+                f, a = fun(F1, f1)
+                g, b = fun(F1, f1, name=k["g"], dsalt=3)
+                up = up.map(f, **a).zip(up.map(g, **b))
+            elif kind == "union_starmap2":
+                f, a = fun(FS, fs)
+                g, b = fun(FS, fs, name=k["g"], dsalt=3)
+                up = up.starmap(f, **a).union(up.starmap(g, **b))
+            elif kind == "buffer":
+                up = up.buffer(k["n"])
+                p.buffers.append(up)
+            elif kind == "partition":
+                up = up.partition(k["n"])
+            elif kind == "sliding_window":
+                up = up.sliding_window(k["n"], return_partial=k.get("partial", True))
+            else:
+                raise common.HarnessError("unknown kind %r" % (kind,))
+            if dask and type(up).__module__ != "streamz.dask":
+                raise common.HarnessError("%s on a DaskStream built %r" % (kind, type(up)))
+        if dask:
+            up = up.gather()
+            watch(up, "gather")
+        p.rec = Rec(up)
+    p.attach = attach
+    if not case.get("late"):
+        attach()
     return p
 
 
@@ -307,15 +341,27 @@ async def drive(case, dask):
                 raise
             return None, type(e).__name__
 
+    late = case.get("late", 0)
+    if late:
+        # the first `late` inputs are emitted while nothing is attached below the source (locally) / below scatter (Dask):
+        # they reach nobody, and their references must be given back all the same
+        for x, rc in zip(case["xs"][:late], rcs[:late]):
+            r, o = emit(x, rc)
+            if o is None:
+                o = await outcome(r, "emit(%r) with nothing attached" % (x,))
+            outcomes.append(o)
+        for _ in range(20):
+            await asyncio.sleep(0)
+        p.attach()
     if case["mode"] == "concurrent":
-        started = [emit(x, rc) for x, rc in zip(case["xs"], rcs)]
+        started = [emit(x, rc) for x, rc in list(zip(case["xs"], rcs))[late:]]
         waits = [outcome(r, "the un-awaited emits") if o is None else None for r, o in started]
         got = await asyncio.gather(*[w for w in waits if w is not None])
         got = iter(got)
-        outcomes = [o if o is not None else next(got) for _, o in started]
+        outcomes += [o if o is not None else next(got) for _, o in started]
         stuck = "stuck" in outcomes
     else:
-        for x, rc in zip(case["xs"], rcs):
+        for x, rc in list(zip(case["xs"], rcs))[late:]:
             r, o = emit(x, rc)
             if o is None:
                 o = await outcome(r, "emit(%r)" % (x,))
@@ -393,8 +439,8 @@ def gen_seg(rng, n):
     seg, tup = [], False
     while len(seg) < n:
         kind = rng.choice(["map", "map", "accumulate", "accumulate", "accumulate_rs", "zip_map", "union_map",
-                           "buffer", "partition", "sliding_window", "starmap", "starmap"])
-        if kind == "starmap" and not tup:
+                           "buffer", "partition", "sliding_window", "starmap", "starmap", "zip_map2", "union_starmap2"])
+        if kind in ("starmap", "union_starmap2") and not tup:
             continue
         k = {"k": kind}
         if kind == "map":
@@ -414,6 +460,12 @@ def gen_seg(rng, n):
         elif kind in ("zip_map", "union_map"):
             k["f"] = rng.choice(K_F1)
             tup = True if kind == "zip_map" else (tup and k["f"] in ("inc", "dbl", "neg", "pair"))
+        elif kind == "zip_map2":
+            k["f"], k["g"] = rng.sample(["inc", "dbl", "neg", "pair", "sum"], 2)
+            tup = True
+        elif kind == "union_starmap2":
+            k["f"], k["g"] = rng.sample(sorted(FS), 2)
+            tup = "rev*" in (k["f"], k["g"]) and False
         elif kind == "buffer":
             k["n"] = rng.choice([1, 2, 5])
         elif kind == "partition":
@@ -432,8 +484,13 @@ def gen_case(rng, mode):
     seg = gen_seg(rng, rng.choice([1, 2, 2, 3, 3, 4]))
     if mode == "buffer":
         seg.append({"k": "buffer", "n": rng.choice([1, 2, 5, 10])})
-    return {"mode": mode, "seg": seg, "xs": [rng.randint(-3, 9) for _ in range(n)], "salt": rng.randrange(50),
+    case = {"mode": mode, "seg": seg, "xs": [rng.randint(-3, 9) for _ in range(n)], "salt": rng.randrange(50),
             "delays": [rng.choice([0, 0, 1, 2, 3, 5, 8]) for _ in range(rng.choice([3, 4, 5]))]}
+    if rng.random() < 0.5:
+        case["style"] = "closure"       # user functions are same-named closures without keyword arguments
+    if n >= 2 and rng.random() < 0.2:
+        case["late"] = rng.randint(1, min(3, n - 1))     # the first inputs are emitted before anything is attached below scatter
+    return case
 
 
 def gen_fault_case(rng, mode):
@@ -489,6 +546,14 @@ CORPUS = [
      "delays": [80, 0, 0, 0, 0]},
     {"mode": "concurrent", "seg": [{"k": "map", "f": "dbl"}, {"k": "accumulate", "f": "mix", "start": 0}],
      "xs": [4, 0, 1, 2, 3], "salt": 0, "delays": [0, 0, 0, 0, 0, 0, 0, 0, 60]},
+    # fan-out inside the segment through two same-named functions (closures, no keyword arguments): each node computes its own
+    {"mode": "await", "style": "closure", "seg": [{"k": "map", "f": "pair"}, {"k": "union_starmap2", "f": "add*", "g": "cnt*"}],
+     "xs": [5, 6, 7], "salt": 0, "delays": [0, 2]},
+    {"mode": "buffer", "style": "closure", "seg": [{"k": "zip_map2", "f": "inc", "g": "dbl"}, {"k": "starmap", "f": "rev*"}, {"k": "buffer", "n": 4}],
+     "xs": [1, 2, 3, 4], "salt": 1, "delays": [1, 0]},
+    # elements emitted while nothing is attached below scatter reach nobody, and their references are given back
+    {"mode": "await", "late": 2, "seg": [{"k": "map", "f": "inc"}], "xs": [1, 2, 3, 4], "salt": 0, "delays": [0]},
+    {"mode": "concurrent", "late": 1, "style": "closure", "seg": [{"k": "accumulate", "f": "add", "start": 0}], "xs": [1, 2, 3], "salt": 0, "delays": [2, 0]},
 ]
 
 
@@ -518,7 +583,11 @@ FAULT_CORPUS = [
 def model_lines(case):
     if is_fault(case):
         return fault_model_lines(case)
-    return [{"op": "reset", "seg": case["seg"]}, {"op": "local", "xs": case["xs"]}]
+    if any(k["k"] in ("zip_map2", "union_starmap2") for k in case["seg"]):
+        return []           # two-branch fan-out kinds: model-free oracle only (Model/Dask.lean has one side branch through one map)
+    late = case.get("late", 0)
+    return [{"op": "reset", "seg": case["seg"]},
+            {"op": "local", "xs": case["xs"][late:], "md": [[i] for i in range(late, len(case["xs"]))]}]
 
 
 def fault_model_lines(case):
@@ -689,7 +758,9 @@ def check_case(ctx, case, answers, loc, dsk):
     elif any(dsk["late"][i] and not loc["late"][i] for i in range(n)):
         ctx.failure("refcount:early-release", "results carrying a ref were delivered after its counter had reached zero "
                     "(sink positions per input: %r)" % (dsk["late"],), case, oracle="no release before the element is done")
-    elif dsk["zeros"] != loc["zeros"] or dsk["fired"] != loc["fired"]:
+    elif dsk["zeros"][case.get("late", 0):] != loc["zeros"][case.get("late", 0):] or dsk["fired"][case.get("late", 0):] != loc["fired"][case.get("late", 0):]:
+        # (inputs emitted while nothing is attached: locally the source has no downstream at all and never touches the counter, while
+        #  scatter is a downstream that retains and releases - only the final values are comparable for those)
         ctx.failure("refcount:callback-count", "counters reached zero %r times (callbacks %r), locally %r (%r)"
                     % (dsk["zeros"], dsk["fired"], loc["zeros"], loc["fired"]), case,
                     expected=loc["zeros"], observed=dsk["zeros"], oracle="done-callback fired as locally")
